@@ -429,6 +429,11 @@ struct ASTNode {
             int count;             /* Number of statements */
         } unsafe_block;
     } as;
+    /* Where the construct ends, when the parser recorded it (0 = not recorded): for a block the
+     * position of its closing brace, for a match arm body the position of the token after it.
+     * A binding declared in a scope is not visible from this position on. */
+    int end_line;
+    int end_column;
 };
 
 /* Resource use state for affine types */
@@ -454,6 +459,8 @@ typedef struct {
     int def_line;        /* Line where variable was defined */
     int def_column;      /* Column where variable was defined */
     bool scope_closed;   /* Type checker: the block/function that declared it has ended */
+    int scope_end_line;  /* Where that scope ends in the source (0 = unknown): lookups by source */
+    int scope_end_column; /* position skip the symbol from there on */
 } Symbol;
 
 /* Function table entry */
